@@ -964,7 +964,17 @@ func callBuiltin(caller *frame, fn *ssa.Builtin, args []value) value {
 			return append(args[0].([]value), []value(s)...)
 		}
 		// append([]T, ...[]T) []T
-		return append(args[0].([]value), args[1].([]value)...)
+		// (aggregate elements are copied by value: two cells must never share
+		// one boxed struct/array)
+		src := args[1].([]value)
+		dst := args[0].([]value)
+		for _, e := range src {
+			dst = append(dst, copyVal(e))
+		}
+		if len(src) == 0 && dst == nil && src != nil {
+			dst = []value{}
+		}
+		return dst
 
 	case "copy": // copy([]T, []T) int or copy([]byte, string) int
 		src := args[1]
@@ -972,7 +982,18 @@ func callBuiltin(caller *frame, fn *ssa.Builtin, args []value) value {
 		case string, symstr:
 			src = strBytes(src)
 		}
-		return copy(args[0].([]value), src.([]value))
+		d, sv := args[0].([]value), src.([]value)
+		n := len(d)
+		if len(sv) < n {
+			n = len(sv)
+		}
+		// overlapping ranges: copy through a temporary
+		tmp := make([]value, n)
+		for k := 0; k < n; k++ {
+			tmp[k] = copyVal(sv[k])
+		}
+		copy(d, tmp)
+		return n
 
 	case "close": // close(chan T)
 		close(args[0].(chan value))
@@ -1540,4 +1561,29 @@ func fandbits[F floaty](x, y F) F {
 		*(*uint64)(unsafe.Pointer(&x)) &= *(*uint64)(unsafe.Pointer(&y))
 	}
 	return x
+}
+
+// copyVal copies an aggregate value (struct/array) so that the copy shares no
+// boxed storage with the original; other values are returned as they are.
+func copyVal(v value) value {
+	switch v := v.(type) {
+	case structure:
+		c := make(structure, len(v))
+		for i, e := range v {
+			c[i] = copyVal(e)
+		}
+		return c
+	case array:
+		c := make(array, len(v))
+		for i, e := range v {
+			c[i] = copyVal(e)
+		}
+		return c
+	case iface:
+		switch v.v.(type) {
+		case structure, array:
+			return iface{t: v.t, v: copyVal(v.v)}
+		}
+	}
+	return v
 }
